@@ -251,6 +251,13 @@ func (g *G) text() string {
 	if g.P.Multibyte && r.Intn(3) == 0 {
 		t += r.Pick(" é", " 名前", " 😀", "ü")
 	}
+	if g.P.Multibyte && r.Intn(6) == 0 {
+		// white space of more than one byte around the text: stripped by the markup pass, counted in characters
+		t = r.Pick("\u3000", "\u00a0", "\u2003\u2003", "\u3000 \u00a0") + t
+		if r.Intn(2) == 0 {
+			t += r.Pick("\u3000", "\u00a0 ", " \u2003")
+		}
+	}
 	if g.P.Escapes && r.Intn(3) == 0 {
 		// (escaped brackets alone and together: the lexer passes them through, the markup pass resolves them)
 		t += r.Pick(" a#b", " {x}", " a\\b", " <<c", " x//y", " a<b", " a/b", " >}", " \\[z\\]", " x\\]y", " p\\[q", " \\] \\]", " e\\]")
@@ -348,6 +355,11 @@ func (g *G) body(depth, n int) []*ast.Stmt {
 			if r.Intn(8) == 0 {
 				want = ""
 			}
+			if r.Intn(6) == 0 {
+				// $t holds the destination of computed jumps: the same <<jump {$t}>> goes to different nodes over time
+				out = append(out, &ast.Stmt{Kind: "set", Var: "t", Op: "set", E: ast.Str(g.titles[r.Intn(len(g.titles))])})
+				break
+			}
 			out = append(out, &ast.Stmt{Kind: "set", Var: v, Op: op, E: g.expr(g.P.ExprDepth, want)})
 		case "declare":
 			var e *ast.Expr
@@ -374,6 +386,9 @@ func (g *G) body(depth, n int) []*ast.Stmt {
 				if r.Intn(3) == 0 {
 					e = ast.Bin("add", ast.Str(t), ast.Str(""))
 				}
+				if r.Intn(3) == 0 {
+					e = ast.Var("t")
+				}
 				if g.P.Faults > 0 && r.Intn(8) == 0 {
 					e = g.expr(1, "")
 				}
@@ -385,6 +400,21 @@ func (g *G) body(depth, n int) []*ast.Stmt {
 				name = "ctl"
 			}
 			s := &ast.Stmt{Kind: "cmd", Cmd: []ast.CmdEl{{Word: name}}}
+			if r.Intn(6) == 0 {
+				// computed command name
+				switch r.Intn(3) {
+				case 0:
+					s.Cmd[0] = ast.CmdEl{E: ast.Str(name)}
+				case 1:
+					s.Cmd[0] = ast.CmdEl{E: ast.Var(r.Pick("s", "t"))}
+				default:
+					s.Cmd[0] = ast.CmdEl{E: g.expr(1, "")}
+				}
+			} else if g.P.Faults > 0 && r.Intn(16) == 0 {
+				// no element at all
+				out = append(out, &ast.Stmt{Kind: "cmd"})
+				break
+			}
 			for k := r.Intn(3); k > 0; k-- {
 				if r.Intn(2) == 0 {
 					s.Cmd = append(s.Cmd, ast.CmdEl{E: g.expr(1, "")})
@@ -437,9 +467,13 @@ func RunCase(r *prng.R, p *Profile, id string) *sexp.S {
 		n.Body = append(n.Body, &ast.Stmt{Kind: "line", Line: &ast.Line{Els: []ast.El{{Text: "enter " + t}}}})
 		if p.LongRuns {
 			n.Body = append(n.Body, g.body(0, 3+r.Intn(8))...)
-			if r.Intn(2) == 0 {
+			switch r.Intn(4) {
+			case 0, 1:
 				// keep the dialogue going: the node hands over to another one (every node starts with a line, so this stays Productive)
 				n.Body = append(n.Body, &ast.Stmt{Kind: "jump", JumpID: r.Intn(2) == 0, E: ast.Str(g.titles[r.Intn(len(g.titles))])})
+			case 2:
+				// hub pattern: the destination is whatever $t says now
+				n.Body = append(n.Body, &ast.Stmt{Kind: "jump", E: ast.Var("t")})
 			}
 		} else {
 			n.Body = append(n.Body, g.body(0, 1+r.Intn(6))...)
@@ -460,7 +494,7 @@ func RunCase(r *prng.R, p *Profile, id string) *sexp.S {
 		if r.Intn(3) == 0 && k > 1 {
 			k = 1 + r.Intn(k-1)
 		}
-		srcs.Add(sexp.Str(layout.Render(prog.Nodes[cut : cut+k])))
+		srcs.Add(sexp.Str(layout.ReaderEnd(layout.Render(prog.Nodes[cut : cut+k]))))
 		cut += k
 	}
 	vars := sexp.L(sexp.A("vars"))
@@ -483,12 +517,21 @@ func RunCase(r *prng.R, p *Profile, id string) *sexp.S {
 	if have() {
 		vars.Add(sexp.L(sexp.Str("m"), value(r, "num")))
 	}
+	if have() {
+		vars.Add(sexp.L(sexp.Str("t"), ast.Str(g.titles[r.Intn(len(g.titles))]).Sexp()))
+	}
 	ops := sexp.L(sexp.A("ops"))
 	nr := 1
 	nsnaps := 0
 	for i := 0; i < p.Ops; i++ {
 		j := r.Intn(nr)
 		x := r.Intn(16)
+		if p.SnapOps == 0 && nr < p.Runners && r.Intn(5) == 0 {
+			// a further runner of the same script, created while the others are under way
+			ops.Add(sexp.L(sexp.A("new"), sexp.N(nr)))
+			nr++
+			continue
+		}
 		switch {
 		case x < p.SnapOps:
 			switch r.Intn(6) {
@@ -551,17 +594,18 @@ var Profiles = map[string]*Profile{
 	"flow": {Name: "flow", LongRuns: true, MaxNodes: 4, Weights: baseWeights, ExprDepth: 2, Faults: 1, Ops: 40, Untracked: true, Tags: true},
 	// biased to reach an end: short bodies, many stops, few jumps; the trailing next calls probe the ended state
 	"end": {Name: "end", MaxNodes: 2, Weights: map[string]int{"line": 6, "opts": 4, "if": 3, "set": 3, "declare": 1, "jump": 1, "cmd": 2, "call": 2, "stop": 3},
-		ExprDepth: 1, Faults: 0, Ops: 24, HostWrites: 1},
+		ExprDepth: 1, Faults: 0, Ops: 24, HostWrites: 1, Ctl: true}, // Ctl: commands that complete while the host polls
 	// assignments of every operator over every pair of types, interleaved with host writes
 	"vars": {Name: "vars", MaxNodes: 2, Weights: map[string]int{"line": 4, "opts": 1, "if": 1, "set": 12, "declare": 3, "jump": 3, "cmd": 0, "call": 1, "stop": 0},
 		ExprDepth: 2, Faults: 2, Ops: 26, HostWrites: 4, Numeric: true},
 	// every statement position may hold a faulty expression; out-of-domain arguments
-	"faults": {Name: "faults", MaxNodes: 3, Weights: baseWeights, ExprDepth: 2, Faults: 8, Ops: 30, Numeric: true, Random: true},
+	"faults": {Name: "faults", MaxNodes: 3, Weights: baseWeights, ExprDepth: 2, Faults: 8, Ops: 30, Numeric: true, Random: true, Ctl: true}, // Ctl: commands that fail after having been pending
 	// snapshots and restores into several runners of the same script
-	"snap": {Name: "snap", LongRuns: true, MaxNodes: 4, Weights: map[string]int{"line": 8, "opts": 3, "if": 2, "set": 5, "declare": 1, "jump": 4, "cmd": 2, "call": 1, "stop": 1},
-		ExprDepth: 1, Faults: 0, Ops: 40, SnapOps: 5, Runners: 3, HostWrites: 1, Ctl: true, Untracked: true},
+	"snap": {Name: "snap", LongRuns: true, MaxNodes: 4, Weights: map[string]int{"line": 8, "opts": 3, "if": 2, "set": 5, "declare": 1, "jump": 5, "cmd": 2, "call": 1, "stop": 1},
+		ExprDepth: 1, Faults: 1, Ops: 40, SnapOps: 5, Runners: 3, HostWrites: 1, Ctl: true, Untracked: true}, // Faults 1: failing statements (jumps to nowhere among them) between snapshots
 	// random built-ins in lines, conditions and assignments
-	"rand": {Name: "rand", LongRuns: true, MaxNodes: 3, Weights: baseWeights, ExprDepth: 2, Faults: 0, Ops: 30, Random: true, RandomHeavy: true},
+	// (two runners of the same script and seed, stepped alternately: each has its own random stream)
+	"rand": {Name: "rand", LongRuns: true, MaxNodes: 3, Weights: baseWeights, ExprDepth: 2, Faults: 0, Ops: 30, Random: true, RandomHeavy: true, Runners: 2},
 	// commands with controlled completion
 	"cmds": {Name: "cmds", LongRuns: true, MaxNodes: 2, Weights: map[string]int{"line": 6, "opts": 1, "if": 1, "set": 2, "declare": 0, "jump": 1, "cmd": 8, "call": 1, "stop": 1},
 		ExprDepth: 1, Faults: 0, Ops: 36, Ctl: true, SnapOps: 1},
@@ -597,6 +641,7 @@ func RandomLayout(r *prng.R) *ast.Layout {
 	l.Spell = r.Intn(2) == 0
 	l.Parens = r.Intn(3)
 	l.CmdSpaces = r.Intn(2) == 0
+	l.ReaderNoise = r.Intn(2) == 0
 	l.HeaderSpace = r.Intn(2) == 0
 	return l
 }
